@@ -200,7 +200,7 @@ package types
 //@   && (a.Type == "INTERNAL_ACCOUNT" ==> a.Id != "")
 //@ func (account Account) Validate() (err)
 //@   ensures (err == nil) == accountValidated(account)
-//@   prop C13 C20
+//@   prop C13 C20 C03 C10 C14
 //@ pred destinationAccountsValidated(dst) = accountValidated(dst.PrimaryShare)
 //@   && (forall k: int :: {dst.Shares[k]} 0 <= k && k < len(dst.Shares) ==> accountValidated(dst.Shares[k].Destination))
 //@ pred sourcesValidated(srcs) = len(srcs) >= 1 && (forall k: int :: {srcs[k]} 0 <= k && k < len(srcs) ==> srcs[k] != nil && accountValidated(srcs[k]))
@@ -208,7 +208,7 @@ package types
 //@ func (subdistributor SubDistributor) Validate() (err)
 //@   requires len(subdistributor.Destinations.Shares) <= 1000000
 //@   ensures err == nil ==> subDistributorValidated(subdistributor)
-//@   prop C20 C13 C10
+//@   prop C20 C13 C10 C03
 //@ loop SubDistributor.Validate#1
 //@   invariant 0 <= \i && \i <= len(subdistributor.Sources)
 //@   invariant forall k: int :: {subdistributor.Sources[k]} 0 <= k && k < \i ==> subdistributor.Sources[k] != nil && accountValidated(subdistributor.Sources[k])
